@@ -41,6 +41,12 @@ def _reorder(items, how):
     if how == 'shuffle' and n > 2:
         k = next(c for c in (7, 5, 3, 11, 13) if n % c)
         return [items[(i * k + 1) % n] for i in range(n)]
+    if how == 'swap' and n >= 5:
+        # in order but for two neighbours in the interior (the ends, and the first step, look regular)
+        out = list(items)
+        j = n // 2
+        out[j], out[j + 1 if j + 1 < n - 1 else j - 1] = out[j + 1 if j + 1 < n - 1 else j - 1], out[j]
+        return out
     return items
 
 
